@@ -135,6 +135,16 @@ def accessors(ctx, crate, e, tag):
             ctx.ob("accessor-kinds" + tag, MP + name, "exists", False, "", "accessor not found")
             continue
         got = ret_kind(b, e)
+        # an accessor that simply delegates to another accessor of the table has that accessor's kind
+        for _ in range(3):
+            deleg = {x for x in got if str(x).startswith("call:") and str(x)[5:] in want}
+            if not deleg:
+                break
+            got = {x for x in got if x not in deleg}
+            for x in deleg:
+                got |= {str(k) for k in want[str(x)[5:]]} if body_by_key(crate, MP + str(x)[5:]) is not None else {x}
+        got = {str(x) for x in got}
+        ks = {str(k) for k in ks}
         ctx.ob("accessor-kinds" + tag, b.key, "returns:%s" % sorted(ks)[0], got == ks, b.loc(),
                "returns %s" % sorted(got))
     b = body_by_key(crate, MP + "is_empty")
